@@ -397,6 +397,24 @@ def install():
     """kept for callers: everything is installed at import"""
 
 
+_REPO_SYS = getattr(curtsies.input, "sys", None)
+
+
+class _SysProxy:
+    def __init__(self, platform):
+        self.__dict__["platform"] = platform
+
+    def __getattr__(self, name):
+        return getattr(sys, name)
+
+
+def set_platform(platform):
+    """sys.platform as seen from curtsies.input (the macOS branch of Input.__enter__); None restores"""
+    if _REPO_SYS is None:
+        return
+    curtsies.input.sys = _REPO_SYS if platform in (None, sys.platform) else _SysProxy(platform)
+
+
 def bind(world, kernel, encoding="utf-8", read_size=None, locale_name=None):
     """Make `world` the target of every seam call (one run at a time per process).  locale_name: the
     spelling locale.getpreferredencoding() answers with (real locales say 'UTF-8', 'ANSI_X3.4-1968', ...)"""
@@ -411,6 +429,7 @@ def bind(world, kernel, encoding="utf-8", read_size=None, locale_name=None):
 def unbind():
     global _W, _K
     _W = _K = None
+    set_platform(None)
     if _REPO_READ_SIZE is not None:
         curtsies.input.READ_SIZE = _REPO_READ_SIZE
 
